@@ -111,24 +111,37 @@ Section C09.
   Proof. exact (triu_src_nonzero_fill V veqb veqb_eq vzero vadd). Qed.
 
   (* ------------------------------------------------------------ diagonal
-     Full statement (every pair of distinct in-range axes, negative spellings included, any extents):
+     Full statement (every pair of distinct in-range axes, any extents):
        forall x offset axis1 axis2 a1 a2, cwf V x ->
          np_norm_axis axis1 n = Some a1 -> np_norm_axis axis2 n = Some a2 -> a1 <> a2 ->
          exists c, coo_diagonal_src ... x offset axis1 axis2 = Ok c
                    /\ extract_result V c x (np_diagonal offset a1 a2 (darr_of_coo x)).
-     It is FALSE of the code as it stands, see diagonal_den_refuted (extents differ: the documented
-     ValueError where NumPy returns the shorter diagonal) and diagonal_den_refuted_negative_axis
-     (negative axes are not normalised).  Inside the two named clauses it holds for EVERY offset
-     (negative and beyond the extent included) and every fill value: *)
+     It is FALSE of the code as it stands, see diagonal_den_refuted (extents of the two axes differ: the
+     documented ValueError where NumPy returns the shorter diagonal; diagonal_nonsquare_rejected says this
+     is all that happens there).  Inside the named clause it holds for EVERY offset (negative and beyond
+     the extent included), every fill value and every spelling of the axes (negative included): *)
   Theorem diagonal_den_partial :
     forall (x : coo V) (offset axis1 axis2 : Z) (a1 a2 : nat),
       cwf V x ->
       np_norm_axis axis1 (ndim_of V x) = Some a1 -> np_norm_axis axis2 (ndim_of V x) = Some a2 -> a1 <> a2 ->
-      diagonal_negative_axis axis1 axis2 = true ->
-      diagonal_nonsquare (c_shape x) axis1 axis2 = true ->
+      diagonal_nonsquare (c_shape x) a1 a2 = true ->
       exists c, coo_diagonal_src V veqb vzero vadd x offset axis1 axis2 = Ok c
         /\ extract_result V c x (np_diagonal offset a1 a2 (darr_of_coo x)).
   Proof. exact (diagonal_den_partial_proof V veqb vzero vadd). Qed.
+
+  Theorem diagonal_nonsquare_rejected :
+    forall (x : coo V) (offset axis1 axis2 : Z) (a1 a2 : nat),
+      np_norm_axis axis1 (ndim_of V x) = Some a1 -> np_norm_axis axis2 (ndim_of V x) = Some a2 -> a1 <> a2 ->
+      diagonal_nonsquare (c_shape x) a1 a2 = false ->
+      coo_diagonal_src V veqb vzero vadd x offset axis1 axis2 = Raise ValueError.
+  Proof. exact (diagonal_nonsquare_rejected_proof V veqb vzero vadd). Qed.
+
+  (* equal axes are rejected with ValueError, like NumPy *)
+  Theorem diagonal_same_axis_rejected :
+    forall (x : coo V) (offset axis1 axis2 : Z) (a : nat),
+      np_norm_axis axis1 (ndim_of V x) = Some a -> np_norm_axis axis2 (ndim_of V x) = Some a ->
+      coo_diagonal_src V veqb vzero vadd x offset axis1 axis2 = Raise ValueError.
+  Proof. exact (diagonal_src_same_axis V veqb vzero vadd). Qed.
 
   (* ------------------------------------------------------------ diagonalize (zero fill; non-zero fill is rejected) *)
   Theorem diagonalize_den :
@@ -181,18 +194,10 @@ Proof. exact indptr_splice_wf_proof. Qed.
 Theorem diagonal_den_refuted :
   exists (x : coo Z) (offset axis1 axis2 : Z) (a1 a2 : nat),
     cwf Z x /\ np_norm_axis axis1 (ndim_of Z x) = Some a1 /\ np_norm_axis axis2 (ndim_of Z x) = Some a2 /\ a1 <> a2
-    /\ diagonal_negative_axis axis1 axis2 = true /\ diagonal_nonsquare (c_shape x) axis1 axis2 = false
+    /\ diagonal_nonsquare (c_shape x) a1 a2 = false
     /\ ~ (exists c, coo_diagonal_src Z Z.eqb 0 Z.add x offset axis1 axis2 = Ok c
                     /\ c_shape c = da_shape (np_diagonal offset a1 a2 (darr_of_coo x))).
 Proof. exact diagonal_den_refuted_proof. Qed.
-
-Theorem diagonal_den_refuted_negative_axis :
-  exists (x : coo Z) (offset axis1 axis2 : Z) (a1 a2 : nat),
-    cwf Z x /\ np_norm_axis axis1 (ndim_of Z x) = Some a1 /\ np_norm_axis axis2 (ndim_of Z x) = Some a2 /\ a1 <> a2
-    /\ diagonal_negative_axis axis1 axis2 = false /\ diagonal_nonsquare (c_shape x) axis1 axis2 = true
-    /\ ~ (exists c, coo_diagonal_src Z Z.eqb 0 Z.add x offset axis1 axis2 = Ok c
-                    /\ c_shape c = da_shape (np_diagonal offset a1 a2 (darr_of_coo x))).
-Proof. exact diagonal_den_refuted_negative_axis_proof. Qed.
 
 Print Assumptions coo_concat_den.
 Print Assumptions coo_concat_canonical.
@@ -204,6 +209,8 @@ Print Assumptions coo_concat_bad_axis_rejected.
 Print Assumptions triu_tril_den.
 Print Assumptions triu_tril_nonzero_fill_rejected.
 Print Assumptions diagonal_den_partial.
+Print Assumptions diagonal_nonsquare_rejected.
+Print Assumptions diagonal_same_axis_rejected.
 Print Assumptions diagonalize_den.
 Print Assumptions diagonalize_nonzero_fill_rejected.
 Print Assumptions take_int_den.
@@ -211,4 +218,3 @@ Print Assumptions take_list_den.
 Print Assumptions indptr_splice_spec.
 Print Assumptions indptr_splice_wf.
 Print Assumptions diagonal_den_refuted.
-Print Assumptions diagonal_den_refuted_negative_axis.
